@@ -1,5 +1,5 @@
 CONSTANTS Hi = 5
-Alphabet = {97, 32, 44, 45, 55, 9, 1077, 8492, 132878}
+Alphabet = {97, 32, 44, 45, 55, 9, 1077, 8492, 132878, 1114111}
 MaxLen = 5
 MaxList = 3
 SPECIFICATION Spec
